@@ -259,7 +259,7 @@ func breakBody(r *core.Rand, it *c16Item, plain []byte) {
 func c16(ctx *core.Ctx) {
 	restful.RegisterEntityAccessor(c16Vendor, restful.NewEntityAccessorJSON(c16Vendor))
 	quietLogs()
-	ctx.Rule("values of a generated struct family (int64/uint64 extremes and 2^53+1, int32, float64 incl. max/denormal/random bit patterns, bool, attribute, nested struct, non-empty slices, strings over ASCII/markup/control/unicode runes restricted to XML Char for XML) are written by the framework's own entity writer (pretty on/off), optionally gzip- (single or multi-member) / deflate-compressed by the harness and posted to an echo route calling ReadEntity into the struct or (JSON, every 4th) into an untyped map where numbers must arrive as exact json.Number; Content-Type spellings with parameters and optional whitespace, or absent with a default request content type, or the written response's Content-Type verbatim (with a filter that pre-set the other codec's type; with a registered vendor type whose key has upper-case letters); both providers. Histories of 24 requests interleave well-formed bodies with broken ones {syntax, truncated document, empty, bad magic, declared-but-plain, garbage, truncated stream, trailer cut/flipped, syntax inside a valid stream}; run sequentially and from 16 goroutines (race detector on). Oracle: reference decode with fresh stdlib readers: error iff the reference errs (never a panic), value DeepEqual to the original / the reference value; every well-formed request round-trips whatever came before. Non-trivial = every judged request; distinct by (codec, coding, content-type spelling, broken kind, pretty, provider, mode).")
+	ctx.Rule("values of a generated struct family (int64/uint64 extremes and 2^53+1, int32, float64 incl. max/denormal/random bit patterns, bool, attribute, nested struct, non-empty slices, strings over ASCII/markup/control/unicode runes restricted to XML Char for XML) are written by the framework's own entity writer (pretty on/off), optionally gzip- (single or multi-member) / deflate-compressed by the harness and posted to an echo route calling ReadEntity into the struct or (JSON, every 4th) into an untyped map where numbers must arrive as exact json.Number; Content-Type spellings with parameters and optional whitespace, or absent with a default request content type, or the written response's Content-Type verbatim (with a filter that pre-set the other codec's type; with a registered vendor type whose key has upper-case letters); both providers; a vendor type that clients send in several spellings before its accessor is registered, and again afterwards. Histories of 24 requests interleave well-formed bodies with broken ones {syntax, truncated document, empty, bad magic, declared-but-plain, garbage, truncated stream, trailer cut/flipped, syntax inside a valid stream}; run sequentially and from 16 goroutines (race detector on). Oracle: reference decode with fresh stdlib readers: error iff the reference errs (never a panic), value DeepEqual to the original / the reference value; every well-formed request round-trips whatever came before. Non-trivial = every judged request; distinct by (codec, coding, content-type spelling, broken kind, pretty, provider, mode).")
 	ctx.Assume("an error is demanded only when the stdlib reference decode of the same bytes errs (a stream missing only its trailer decodes fine, DESIGN §4.8)")
 	defer restful.SetCompressorProvider(restful.NewSyncPoolCompessors())
 	defer restful.DefaultRequestContentType("")
@@ -518,5 +518,39 @@ func c16(ctx *core.Ctx) {
 			}
 		}
 		ctx.Sig("default-type-registered-late")
+		// a vendor type that clients already send (in several spellings) BEFORE the application registers its accessor: those
+		// requests fail, which is fine; from the registration on every spelling is read back
+		const later = "application/vnd.verif.later+json"
+		restful.DefaultRequestContentType("") // no default to fall back on
+		spell := []string{later, later + "; charset=utf-8", later + ";charset=UTF-8", later + " ; charset=\"utf-8\"", " " + later, later + ";v=2"}
+		for phase := 0; phase < 2; phase++ {
+			if phase == 1 {
+				restful.RegisterEntityAccessor(later, restful.NewEntityAccessorJSON(later))
+			}
+			for q := 0; q < 4*len(spell); q++ {
+				orig := genEntity(r, false)
+				body, _ := json.Marshal(orig)
+				req := rt.Req{Method: "POST", Path: "/late/", Body: body, BodyLen: len(body), HasCT: true, CT: spell[q%len(spell)]}
+				out := rt.Run(c, rt.Dispatch, &req)
+				ctx.Eval(1)
+				if out.Panicked {
+					ctx.Violation(-1, "c16:panic:type-registered-later", "panic: "+out.Panic, map[string]interface{}{"content_type": req.CT, "phase": phase})
+					break
+				}
+				if phase == 0 {
+					ctx.Count("reads_before_the_accessor_was_registered", 1)
+					continue
+				}
+				ctx.Count("reads_after_the_accessor_was_registered", 1)
+				g, w := got, orig
+				g.XMLName, w.XMLName = xml.Name{}, xml.Name{}
+				if rerr != nil || !reflect.DeepEqual(g, w) {
+					ctx.Violation(-1, "c16:type-registered-later", fmt.Sprintf("Content-Type %q was sent (and refused) before its accessor was registered; after RegisterEntityAccessor(%q) a well-formed body is still not read back: err=%v", req.CT, later, rerr),
+						map[string]interface{}{"content_type": req.CT, "error": fmt.Sprint(rerr)})
+					break
+				}
+			}
+		}
+		ctx.Sig("type-registered-later")
 	}
 }
